@@ -6,72 +6,72 @@ makes of the lines they print (its map becomes the file part of that configurati
 import Proofs.Lemmas.C01Base
 
 namespace C01
-open Fmt Spec.Format
+open Fmt
 
-theorem fileOnly_eq (o : Option (Bytes × Bool)) :
-    fileOnly o = match o with
-      | some (v, true) => some (v, true)
-      | _ => none := by
-  unfold fileOnly; rfl
-
-theorem link_erase {fc : FC} {m : CMap} (hl : Link fc m) (key : Bytes) :
-    Link (fc.erase key) (m.del key) := by
-  intro k
-  rw [CMap.get_del, FC.get_erase]
+theorem link_erase {fc : FC} {s : Store} (hl : Link fc s) (key : Bytes) :
+    Link (fc.erase key) (s.set key [] true) := by
+  refine ⟨(Store.set_spec hl.inv key [] true).1, fun k => ?_⟩
+  rw [toMap_set hl.inv, FC.get_erase]
   by_cases hk : k = key
   · simp [hk, fileOnly]
-  · simp [hk, hl k]
+  · simp [hk, hl.map k]
 
-theorem link_erase_inert {fc : FC} {m : CMap} (hl : Link fc m) (key v : Bytes)
-    (h : fc.get key = some (v, false)) : Link (fc.erase key) m := by
-  intro k
+theorem link_erase_inert {fc : FC} {s : Store} (hl : Link fc s) (key v : Bytes)
+    (h : fc.get key = some (v, false)) : Link (fc.erase key) s := by
+  refine ⟨hl.inv, fun k => ?_⟩
   rw [FC.get_erase]
   by_cases hk : k = key
-  · subst hk; rw [hl k, h]; simp [fileOnly]
-  · simp [hk, hl k]
+  · subst hk; rw [hl.map k, h]; simp [fileOnly]
+  · simp [hk, hl.map k]
 
-theorem link_set_file {fc : FC} {m : CMap} (hl : Link fc m) (key v : Bytes) (hv : v ≠ []) :
-    Link (fc.set key v true) (m.assign key v true) := by
-  intro k
-  rw [CMap.get_assign, FC.get_set]
+theorem link_set_file {fc : FC} {s : Store} (hl : Link fc s) (key v : Bytes) (hv : v ≠ []) :
+    Link (fc.set key v true) (s.set key v true) := by
+  refine ⟨(Store.set_spec hl.inv key v true).1, fun k => ?_⟩
+  rw [toMap_set hl.inv, FC.get_set]
   by_cases hk : k = key
   · simp [hk, hv, fileOnly]
-  · simp [hk, hl k]
+  · simp [hk, hl.map k]
 
-theorem link_set_internal_del {fc : FC} {m : CMap} (hl : Link fc m) (key v : Bytes) :
-    Link (fc.set key v false) (m.del key) := by
-  intro k
-  rw [CMap.get_del, FC.get_set]
+theorem link_set_internal_del {fc : FC} {s : Store} (hl : Link fc s) (key v : Bytes) :
+    Link (fc.set key v false) (s.set key [] true) := by
+  refine ⟨(Store.set_spec hl.inv key [] true).1, fun k => ?_⟩
+  rw [toMap_set hl.inv, FC.get_set]
   by_cases hk : k = key
   · simp [hk, fileOnly]
-  · simp [hk, hl k]
+  · simp [hk, hl.map k]
 
-theorem link_set_internal_same {fc : FC} {m : CMap} (hl : Link fc m) (key v v0 : Bytes)
-    (h : fc.get key = some (v0, false)) : Link (fc.set key v false) m := by
-  intro k
+theorem link_set_internal_same {fc : FC} {s : Store} (hl : Link fc s) (key v v0 : Bytes)
+    (h : fc.get key = some (v0, false)) : Link (fc.set key v false) s := by
+  refine ⟨hl.inv, fun k => ?_⟩
   rw [FC.get_set]
   by_cases hk : k = key
-  · subst hk; rw [hl k, h]; simp [fileOnly]
-  · simp [hk, hl k]
+  · subst hk; rw [hl.map k, h]; simp [fileOnly]
+  · simp [hk, hl.map k]
 
-theorem link_set_internal_new {fc : FC} {m : CMap} (hl : Link fc m) (key v : Bytes)
-    (h : fc.get key = none) : Link (fc.set key v false) m := by
-  intro k
+theorem link_set_internal_new {fc : FC} {s : Store} (hl : Link fc s) (key v : Bytes)
+    (h : fc.get key = none) : Link (fc.set key v false) s := by
+  refine ⟨hl.inv, fun k => ?_⟩
   rw [FC.get_set]
   by_cases hk : k = key
-  · subst hk; rw [hl k, h]; simp [fileOnly]
-  · simp [hk, hl k]
+  · subst hk; rw [hl.map k, h]; simp [fileOnly]
+  · simp [hk, hl.map k]
 
-theorem fcgood_erase {O : Oracles} {fn : Bytes} {fc : FC} (hg : FCGood O fn fc) (key : Bytes) :
-    FCGood O fn (fc.erase key) := by
+/-- one line that the reader takes without a record, then a block -/
+theorem block_step (O : Oracles) {st st1 : RState} {l : Bytes} {ls : List Bytes} {fc' : FC}
+    (h1 : scanLine O st l = (st1, [])) (hu : st1.units = st.units) (hf : st1.fileName = st.fileName)
+    (hb : Block O st1 ls fc') : Block O st ([l] ++ ls) fc' :=
+  block_cons O h1 hu hf hb
+
+theorem fcgood_erase {O : Oracles} {fc : FC} (hg : FCGood O fc) (key : Bytes) :
+    FCGood O (fc.erase key) := by
   intro k v f h
   rw [FC.get_erase] at h
   by_cases hk : k = key
   · simp [hk] at h
   · simp only [hk, ↓reduceIte] at h; exact hg k v f h
 
-theorem fcgood_set {O : Oracles} {fn : Bytes} {fc : FC} (hg : FCGood O fn fc) (c : Cfg)
-    (hc : CfgGood O fn c) : FCGood O fn (fc.set c.key c.value c.file) := by
+theorem fcgood_set {O : Oracles} {fc : FC} (hg : FCGood O fc) (c : Cfg)
+    (hc : CfgGood O c) : FCGood O (fc.set c.key c.value c.file) := by
   intro k v f h
   rw [FC.get_set] at h
   by_cases hk : k = c.key
@@ -91,22 +91,21 @@ theorem fcgood_set {O : Oracles} {fn : Bytes} {fc : FC} (hg : FCGood O fn fc) (c
 configuration holds for it; (2) `order` loses exactly the deleted keys; (3) keys stay distinct;
 (4) a reader that held the file part of the old `fileConfig` holds, after the printed lines, the
 file part of the new one. (4) alone depends on what the reader makes of the lines. -/
-theorem walk_spec (O : Oracles) (fn : Bytes) (config : List Cfg) (hnd : (config.map Cfg.key).Nodup) :
+theorem walk_spec (O : Oracles) (config : List Cfg) (hnd : (config.map Cfg.key).Nodup) :
     ∀ (order : List Bytes) (fc : FC),
       order.Nodup → (∀ k ∈ order, (fc.get k).isSome) → fc.keys.Nodup →
       (∀ k, ((walk config order fc).2.1).get k = if k ∈ order then cfgGet config k else fc.get k) ∧
       (walk config order fc).1 = order.filter (fun k => (cfgGet config k).isSome) ∧
       (walk config order fc).2.1.keys.Nodup ∧
-      ∀ (m : CMap) (u : UnitMap), (∀ c ∈ config, CfgGood O fn c) → Link fc m → FCGood O fn fc →
-        FCGood O fn (walk config order fc).2.1 ∧
-        ∃ m', (∀ n, runLines O fn m u n (walk config order fc).2.2 = (m', u, [])) ∧
-          Link (walk config order fc).2.1 m' := by
+      ∀ (st : RState), (∀ c ∈ config, CfgGood O c) → Link fc st.store → FCGood O fc →
+        FCGood O (walk config order fc).2.1 ∧
+        Block O st (walk config order fc).2.2 (walk config order fc).2.1 := by
   intro order
   induction order with
   | nil =>
     intro fc _ _ hk
-    exact ⟨fun k => by simp [walk], by simp [walk], hk, fun m u _ hl hg =>
-      ⟨hg, m, fun n => by simp [walk, runLines], hl⟩⟩
+    exact ⟨fun k => by simp [walk], by simp [walk], hk, fun st _ hl hg =>
+      ⟨hg, by simpa [walk] using block_nil O hl⟩⟩
   | cons key rest ih =>
     intro fc hndo hin hkn
     simp only [List.nodup_cons] at hndo
@@ -128,29 +127,29 @@ theorem walk_spec (O : Oracles) (fn : Bytes) (config : List Cfg) (hnd : (config.
       obtain ⟨ha, hb, hkn', hread⟩ := ih (fc.erase key) hndo.2
         (hin' _ (fun k hk => by rw [FC.get_erase]; simp [hk])) (FC.nodup_erase hkn key)
       rw [hw]
-      refine ⟨fun k => ?_, ?_, hkn', fun m u hcfg hl hg => ?_⟩
+      refine ⟨fun k => ?_, ?_, hkn', fun st hcfg hl hg => ?_⟩
       · simp only [ha k, List.mem_cons, FC.get_erase]
         by_cases hk : k = key
         · subst hk; simp [hndo.1, hcg]
         · simp [hk]
       · simp only [hb, List.filter_cons, hcg]; rfl
-      · -- the reader's map after the deletion line
-        have hline : ∃ m1, (∀ n, lineRecs O fn m u n (delLine key) = (m1, u, [])) ∧ Link (fc.erase key) m1 := by
+      · -- the reader's state after the deletion line
+        have hline : ∃ st1, scanLine O st (delLine key) = (st1, []) ∧ st1.units = st.units ∧
+            st1.fileName = st.fileName ∧ Link (fc.erase key) st1.store := by
           have hgk := hg key hv hf hfc
           by_cases hff : hf = true
           · subst hff
             simp only [↓reduceIte] at hgk
-            exact ⟨m.del key, fun n => hgk m u n, link_erase hl key⟩
+            exact ⟨_, hgk st, rfl, rfl, link_erase hl key⟩
           · have hff' : hf = false := by simpa using hff
             subst hff'
             simp only [Bool.false_eq_true, ↓reduceIte] at hgk
             rcases hgk with hd | hi
-            · exact ⟨m.del key, fun n => hd m u n, link_erase hl key⟩
-            · exact ⟨m, fun n => hi m u n, link_erase_inert hl key hv hfc⟩
-        obtain ⟨m1, hm1, hl1⟩ := hline
-        obtain ⟨hg', m', hr, hl'⟩ := hread m1 u hcfg hl1 (fcgood_erase hg key)
-        refine ⟨hg', m', fun n => ?_, hl'⟩
-        simp only [runLines, hm1 n, hr (n + 1), List.nil_append]
+            · exact ⟨_, hd st, rfl, rfl, link_erase hl key⟩
+            · exact ⟨_, hi st, rfl, rfl, link_erase_inert hl key hv hfc⟩
+        obtain ⟨st1, hm1, hu1, hf1, hl1⟩ := hline
+        obtain ⟨hg', hblk⟩ := hread st1 hcfg hl1 (fcgood_erase hg key)
+        exact ⟨hg', block_cons O hm1 hu1 hf1 hblk⟩
     | some cfg =>
       have hck : cfg.key = key := by simpa using List.find?_some hc
       have hcm : cfg ∈ config := List.mem_of_find?_eq_some hc
@@ -163,7 +162,7 @@ theorem walk_spec (O : Oracles) (fn : Bytes) (config : List Cfg) (hnd : (config.
         simp only [Bool.and_eq_true, beq_iff_eq] at hsame
         obtain ⟨ha, hb, hkn', hread⟩ := ih fc hndo.2 (hin' _ (fun k _ => rfl)) hkn
         rw [hw]
-        refine ⟨fun k => ?_, ?_, hkn', fun m u hcfg hl hg => hread m u hcfg hl hg⟩
+        refine ⟨fun k => ?_, ?_, hkn', fun st hcfg hl hg => hread st hcfg hl hg⟩
         · simp only [ha k, List.mem_cons]
           by_cases hk : k = key
           · subst hk; simp [hndo.1, hcg, hfc, hsame.1, hsame.2]
@@ -180,42 +179,38 @@ theorem walk_spec (O : Oracles) (fn : Bytes) (config : List Cfg) (hnd : (config.
         obtain ⟨ha, hb, hkn', hread⟩ := ih (fc.set key cfg.value cfg.file) hndo.2
           (hin' _ (fun k hk => by rw [FC.get_set]; simp [hk])) (FC.nodup_set hkn key _ _)
         rw [hw]
-        refine ⟨fun k => ?_, ?_, hkn', fun m u hcfg hl hg => ?_⟩
+        refine ⟨fun k => ?_, ?_, hkn', fun st hcfg hl hg => ?_⟩
         · simp only [ha k, List.mem_cons, FC.get_set]
           by_cases hk : k = key
           · subst hk; simp [hndo.1, hcg]
           · simp [hk]
         · simp only [hb, List.filter_cons, hcg, Option.isSome_some, ↓reduceIte]
         · have hgood := hcfg cfg hcm
-          -- the reader's map after the line(s)
-          have hline : ∃ m1, (∀ n, runLines O fn m u n
-                (if cfg.file then [kvLine key cfg.value] else if hf then [delLine key] else []) = (m1, u, [])) ∧
-              Link (fc.set key cfg.value cfg.file) m1 := by
-            unfold CfgGood at hgood
-            by_cases hcf : cfg.file = true
-            · simp only [hcf, ↓reduceIte] at hgood ⊢
-              rw [hck] at hgood
-              exact ⟨m.assign key cfg.value true, fun n => by simp [runLines, hgood.1 m u n],
-                link_set_file hl key cfg.value hgood.2.1⟩
-            · have hcf' : cfg.file = false := by simpa using hcf
-              simp only [hcf', Bool.false_eq_true, ↓reduceIte]
-              by_cases hff : hf = true
-              · subst hff
-                have hgk := hg key hv true hfc
-                simp only [↓reduceIte] at hgk ⊢
-                exact ⟨m.del key, fun n => by simp [runLines, hgk m u n], link_set_internal_del hl key cfg.value⟩
-              · have hff' : hf = false := by simpa using hff
-                subst hff'
-                simp only [Bool.false_eq_true, ↓reduceIte]
-                exact ⟨m, fun n => by simp [runLines], link_set_internal_same hl key cfg.value hv hfc⟩
-          obtain ⟨m1, hm1, hl1⟩ := hline
-          have hgs : FCGood O fn (fc.set key cfg.value cfg.file) := by
+          have hgs : FCGood O (fc.set key cfg.value cfg.file) := by
             have := fcgood_set hg cfg hgood
             rw [hck] at this; exact this
-          obtain ⟨hg', m', hr, hl'⟩ := hread m1 u hcfg hl1 hgs
-          refine ⟨hg', m', fun n => ?_, hl'⟩
-          rw [runLines_append]
-          simp only [hm1 n, hr, List.nil_append]
+          unfold CfgGood at hgood
+          by_cases hcf : cfg.file = true
+          · simp only [hcf, ↓reduceIte] at hgood ⊢
+            rw [hck] at hgood
+            rw [hcf] at hread hgs
+            obtain ⟨hg', hblk⟩ := hread { next st with store := st.store.set key cfg.value true } hcfg
+              (link_set_file hl key cfg.value hgood.2.1) hgs
+            exact ⟨hg', block_step O (hgood.1 st) rfl rfl hblk⟩
+          · have hcf' : cfg.file = false := by simpa using hcf
+            simp only [hcf', Bool.false_eq_true, ↓reduceIte]
+            rw [hcf'] at hread hgs
+            by_cases hff : hf = true
+            · subst hff
+              have hgk := hg key hv true hfc
+              simp only [↓reduceIte] at hgk ⊢
+              obtain ⟨hg', hblk⟩ := hread { next st with store := st.store.set key [] true } hcfg
+                (link_set_internal_del hl key cfg.value) hgs
+              exact ⟨hg', block_step O (hgk st) rfl rfl hblk⟩
+            · have hff' : hf = false := by simpa using hff
+              subst hff'
+              simp only [Bool.false_eq_true, ↓reduceIte, List.nil_append]
+              exact hread st hcfg (link_set_internal_same hl key cfg.value hv hfc) hgs
 
 /-! ### new keys -/
 
@@ -232,22 +227,20 @@ theorem cfgGet_cons (c : Cfg) (cs : List Cfg) (k : Bytes) :
   · have : (c.key == k) = false := by simpa using h
     simp [this, h]
 
-theorem newKeys_spec (O : Oracles) (fn : Bytes) :
+theorem newKeys_spec (O : Oracles) :
     ∀ (cs : List Cfg) (fc : FC) (ord : List Bytes),
       (cs.map Cfg.key).Nodup → fc.keys.Nodup →
       (∀ k, (newKeys cs fc ord).1.get k = if (fc.get k).isSome then fc.get k else cfgGet cs k) ∧
       (newKeys cs fc ord).2.1 = ord ++ (cs.filter (fun c => (fc.get c.key).isNone)).map Cfg.key ∧
       (newKeys cs fc ord).1.keys.Nodup ∧
-      ∀ (m : CMap) (u : UnitMap), (∀ c ∈ cs, CfgGood O fn c) → Link fc m → FCGood O fn fc →
-        FCGood O fn (newKeys cs fc ord).1 ∧
-        ∃ m', (∀ n, runLines O fn m u n (newKeys cs fc ord).2.2 = (m', u, [])) ∧
-          Link (newKeys cs fc ord).1 m' := by
+      ∀ (st : RState), (∀ c ∈ cs, CfgGood O c) → Link fc st.store → FCGood O fc →
+        FCGood O (newKeys cs fc ord).1 ∧ Block O st (newKeys cs fc ord).2.2 (newKeys cs fc ord).1 := by
   intro cs
   induction cs with
   | nil =>
     intro fc ord _ hk
-    refine ⟨fun k => ?_, by simp [newKeys], hk, fun m u _ hl hg =>
-      ⟨hg, m, fun n => by simp [newKeys, runLines], hl⟩⟩
+    refine ⟨fun k => ?_, by simp [newKeys], hk, fun st _ hl hg =>
+      ⟨hg, by simpa [newKeys] using block_nil O hl⟩⟩
     cases h : fc.get k <;> simp [newKeys, h, cfgGet_eq]
   | cons c cs ih =>
     intro fc ord hnd hkn
@@ -256,8 +249,8 @@ theorem newKeys_spec (O : Oracles) (fn : Bytes) :
     · have hw : newKeys (c :: cs) fc ord = newKeys cs fc ord := by simp only [newKeys, hhas, ↓reduceIte]
       obtain ⟨ha, hb, hkn', hread⟩ := ih fc ord hnd.2 hkn
       rw [hw]
-      refine ⟨fun k => ?_, ?_, hkn', fun m u hcfg hl hg =>
-        hread m u (fun c' h => hcfg c' (List.mem_cons_of_mem _ h)) hl hg⟩
+      refine ⟨fun k => ?_, ?_, hkn', fun st hcfg hl hg =>
+        hread st (fun c' h => hcfg c' (List.mem_cons_of_mem _ h)) hl hg⟩
       · rw [ha k, cfgGet_cons]
         by_cases hk : (fc.get k).isSome = true
         · simp [hk]
@@ -278,7 +271,7 @@ theorem newKeys_spec (O : Oracles) (fn : Bytes) :
       obtain ⟨ha, hb, hkn', hread⟩ := ih (fc.set c.key c.value c.file) (ord ++ [c.key]) hnd.2
         (FC.nodup_set hkn _ _ _)
       rw [hw]
-      refine ⟨fun k => ?_, ?_, hkn', fun m u hcfg hl hg => ?_⟩
+      refine ⟨fun k => ?_, ?_, hkn', fun st hcfg hl hg => ?_⟩
       · rw [ha k, FC.get_set, cfgGet_cons]
         by_cases hk : k = c.key
         · subst hk; simp [hnone]
@@ -295,22 +288,19 @@ theorem newKeys_spec (O : Oracles) (fn : Bytes) :
           simp only [List.mem_map]; exact ⟨c', hc', e⟩)
         rw [FC.get_set]; simp [hne]
       · have hgood := hcfg c List.mem_cons_self
-        have hline : ∃ m1, (∀ n, runLines O fn m u n (if c.file then [kvLine c.key c.value] else []) = (m1, u, [])) ∧
-            Link (fc.set c.key c.value c.file) m1 := by
-          unfold CfgGood at hgood
-          by_cases hcf : c.file = true
-          · simp only [hcf, ↓reduceIte] at hgood ⊢
-            exact ⟨m.assign c.key c.value true, fun n => by simp [runLines, hgood.1 m u n],
-              link_set_file hl c.key c.value hgood.2.1⟩
-          · have hcf' : c.file = false := by simpa using hcf
-            simp only [hcf', Bool.false_eq_true, ↓reduceIte]
-            exact ⟨m, fun n => by simp [runLines], link_set_internal_new hl c.key c.value hnone⟩
-        obtain ⟨m1, hm1, hl1⟩ := hline
-        obtain ⟨hg', m', hr, hl'⟩ := hread m1 u (fun c' h => hcfg c' (List.mem_cons_of_mem _ h)) hl1
-          (fcgood_set hg c hgood)
-        refine ⟨hg', m', fun n => ?_, hl'⟩
-        rw [runLines_append]
-        simp only [hm1 n, hr, List.nil_append]
+        have hgs := fcgood_set hg c hgood
+        have hcfg' : ∀ c' ∈ cs, CfgGood O c' := fun c' h => hcfg c' (List.mem_cons_of_mem _ h)
+        unfold CfgGood at hgood
+        by_cases hcf : c.file = true
+        · simp only [hcf, ↓reduceIte] at hgood ⊢
+          rw [hcf] at hread hgs
+          obtain ⟨hg', hblk⟩ := hread { next st with store := st.store.set c.key c.value true } hcfg'
+            (link_set_file hl c.key c.value hgood.2.1) hgs
+          exact ⟨hg', block_step O (hgood.1 st) rfl rfl hblk⟩
+        · have hcf' : c.file = false := by simpa using hcf
+          simp only [hcf', Bool.false_eq_true, ↓reduceIte, List.nil_append]
+          rw [hcf'] at hread hgs
+          exact hread st hcfg' (link_set_internal_new hl c.key c.value hnone) hgs
 
 /-! ### the whole block -/
 
@@ -323,16 +313,26 @@ structure WInv (w : WState) : Prop where
 theorem winv_new : WInv WState.new :=
   ⟨List.nodup_nil, List.nodup_nil, fun k => by simp [WState.new, FC.get]⟩
 
-theorem writeFileConfig_spec (O : Oracles) (fn : Bytes) (w : WState) (config : List Cfg)
+/-- the optional blank line in front of a block, and the closing one -/
+theorem block_blank (O : Oracles) {st : RState} {fc : FC} (hl : Link fc st.store) : Block O st [[]] fc :=
+  block_cons O (blank_inert O st) rfl rfl (block_nil O (by simpa [next] using hl))
+
+theorem block_pre (O : Oracles) (first : Bool) {st : RState} {fc : FC} (hl : Link fc st.store) :
+    Block O st (if (!first) = true then [[]] else []) fc ∧
+    Link fc (finalState O st (if (!first) = true then [[]] else [])).store := by
+  split
+  · exact ⟨block_blank O hl, (block_blank O hl).link⟩
+  · exact ⟨block_nil O hl, hl⟩
+
+theorem writeFileConfig_spec (O : Oracles) (w : WState) (config : List Cfg)
     (hw : WInv w) (hnd : (config.map Cfg.key).Nodup) :
     (∀ k, (writeFileConfig w config).1.fileConfig.get k = cfgGet config k) ∧
     WInv (writeFileConfig w config).1 ∧
-    ∀ (m : CMap) (u : UnitMap), (∀ c ∈ config, CfgGood O fn c) → Link w.fileConfig m →
-      FCGood O fn w.fileConfig →
-      FCGood O fn (writeFileConfig w config).1.fileConfig ∧
-      ∃ m', (∀ n, runLines O fn m u n (writeFileConfig w config).2 = (m', u, [])) ∧
-        Link (writeFileConfig w config).1.fileConfig m' := by
-  obtain ⟨ha, hb, hkn1, hread1⟩ := walk_spec O fn config hnd w.order w.fileConfig hw.order_nodup
+    ∀ (st : RState), (∀ c ∈ config, CfgGood O c) → Link w.fileConfig st.store →
+      FCGood O w.fileConfig →
+      FCGood O (writeFileConfig w config).1.fileConfig ∧
+      Block O st (writeFileConfig w config).2 (writeFileConfig w config).1.fileConfig := by
+  obtain ⟨ha, hb, hkn1, hread1⟩ := walk_spec O config hnd w.order w.fileConfig hw.order_nodup
     (fun k hk => (hw.order_iff k).1 hk) hw.keys_nodup
   -- after the walk: exactly the known keys that are still configured, with their new entries
   have hF1 : ∀ k, (walk config w.order w.fileConfig).2.1.get k =
@@ -348,7 +348,7 @@ theorem writeFileConfig_spec (O : Oracles) (fn : Bytes) (w : WState) (config : L
       simp [hk, this]
   by_cases hlen : ((walk config w.order w.fileConfig).2.1.length != config.length) = true
   · -- new keys
-    obtain ⟨ha2, hb2, hkn2, hread2⟩ := newKeys_spec O fn config
+    obtain ⟨ha2, hb2, hkn2, hread2⟩ := newKeys_spec O config
       (walk config w.order w.fileConfig).2.1 (walk config w.order w.fileConfig).1 hnd hkn1
     have hfc : ∀ k, (newKeys config (walk config w.order w.fileConfig).2.1
         (walk config w.order w.fileConfig).1).1.get k = cfgGet config k := by
@@ -366,7 +366,7 @@ theorem writeFileConfig_spec (O : Oracles) (fn : Bytes) (w : WState) (config : L
             (newKeys config (walk config w.order w.fileConfig).2.1 (walk config w.order w.fileConfig).1).2.2 ++ [[]]) := by
       simp only [writeFileConfig, hlen, ↓reduceIte]
     rw [hwfc]
-    refine ⟨hfc, ⟨?_, hkn2, ?_⟩, fun m u hcfg hl hg => ?_⟩
+    refine ⟨hfc, ⟨?_, hkn2, ?_⟩, fun st hcfg hl hg => ?_⟩
     · -- order is duplicate free
       simp only [hb2]
       rw [hb, List.nodup_append]
@@ -397,13 +397,12 @@ theorem writeFileConfig_spec (O : Oracles) (fn : Bytes) (w : WState) (config : L
           obtain ⟨c, hc, hck⟩ := h
           refine ⟨c, ⟨hc, ?_⟩, hck⟩
           rw [hck, hF1 k]; simp [hk]
-    · have hpre : ∀ n, runLines O fn m u n (if (!w.first) = true then [[]] else []) = (m, u, []) := by
-        intro n; split <;> simp [runLines, blank_inert]
-      obtain ⟨hg1, m1, hr1, hl1⟩ := hread1 m u hcfg hl hg
-      obtain ⟨hg2, m2, hr2, hl2⟩ := hread2 m1 u hcfg hl1 hg1
-      refine ⟨hg2, m2, fun n => ?_, hl2⟩
-      rw [runLines_append, runLines_append, runLines_append]
-      simp only [hpre, hr1, hr2, List.nil_append, runLines, blank_inert, List.append_nil]
+    · obtain ⟨hpre, hlpre⟩ := block_pre O w.first hl
+      obtain ⟨hg1, hb1⟩ := hread1 _ hcfg hlpre hg
+      have hb01 := block_append O hpre hb1
+      obtain ⟨hg2, hb2⟩ := hread2 _ hcfg hb01.link hg1
+      have hb012 := block_append O hb01 hb2
+      exact ⟨hg2, block_append O hb012 (block_blank O hb012.link)⟩
   · -- no new keys: the walk already produced the whole configuration
     have hlen' : (walk config w.order w.fileConfig).2.1.length = config.length := by simpa using hlen
     have hsub : (walk config w.order w.fileConfig).2.1.keys ⊆ config.map Cfg.key := by
@@ -439,17 +438,16 @@ theorem writeFileConfig_spec (O : Oracles) (fn : Bytes) (w : WState) (config : L
           (if (!w.first) = true then [[]] else []) ++ (walk config w.order w.fileConfig).2.2 ++ [] ++ [[]]) := by
       simp only [writeFileConfig, hlen, Bool.false_eq_true, ↓reduceIte]
     rw [hwfc]
-    refine ⟨hfc, ⟨?_, hkn1, ?_⟩, fun m u hcfg hl hg => ?_⟩
+    refine ⟨hfc, ⟨?_, hkn1, ?_⟩, fun st hcfg hl hg => ?_⟩
     · simp only [hb]; exact hw.order_nodup.sublist List.filter_sublist
     · intro k
       simp only [hb, hfc k, List.mem_filter]
       exact ⟨fun h => h.2, fun h => ⟨hall k h, h⟩⟩
-    · have hpre : ∀ n, runLines O fn m u n (if (!w.first) = true then [[]] else []) = (m, u, []) := by
-        intro n; split <;> simp [runLines, blank_inert]
-      obtain ⟨hg1, m1, hr1, hl1⟩ := hread1 m u hcfg hl hg
-      refine ⟨hg1, m1, fun n => ?_, hl1⟩
-      rw [runLines_append, runLines_append, runLines_append]
-      simp only [hpre, hr1, List.nil_append, runLines, blank_inert, List.append_nil]
+    · obtain ⟨hpre, hlpre⟩ := block_pre O w.first hl
+      obtain ⟨hg1, hb1⟩ := hread1 _ hcfg hlpre hg
+      have hb01 := block_append O hpre hb1
+      have hb012 := block_append O hb01 (block_nil O hb01.link)
+      exact ⟨hg1, block_append O hb012 (block_blank O hb012.link)⟩
 
 /-- When the pre-check of `writeResult` finds nothing to do, the writer state already is the
 record's configuration. -/
